@@ -121,6 +121,11 @@ EVP_PKEY_CTX *EVP_PKEY_CTX_new_from_pkey(OSSL_LIB_CTX *libctx, EVP_PKEY *pkey, c
 	c->pkey = pkey; c->padding = 0; c->saltlen = 0;
 	return c;
 }
+/* the per-thread error queue: libjwt never clears it, so it may hold entries of EARLIER, unrelated calls */
+unsigned long ERR_peek_error(void) { return nondet_bool() ? 0UL : 1UL; }
+unsigned long ERR_get_error(void) { return nondet_bool() ? 0UL : 1UL; }
+unsigned long ERR_peek_last_error(void) { return nondet_bool() ? 0UL : 1UL; }
+void ERR_clear_error(void) { }
 static int key_check(EVP_PKEY_CTX *ctx)
 {
 	__CPROVER_assert(ctx != NULL, "EVP_PKEY_*_check: a context");
